@@ -937,7 +937,61 @@ class HandlerCopyEmpty(Suite):
         return Info(True, ['emptied_by:' + case['how'], 'then:' + case['then']])
 
 
-SUITES = [Accept(), AcceptInvalid(), AcceptQuotedSpecial(), HandlerHistory(), HandlerEndToEnd(), WildcardKey(), HandlerCopyEmpty()]
+class ManyParams(Suite):
+    """Counts beyond the moderate range: media ranges and candidates that share 1-2100 parameters (RFC 9110 12.5.1: the
+    most specific matching range decides, and specificity grows with every matching parameter - there is no cap), next to
+    less specific ranges with a different q; also Accept headers with 300-3000 ranges.  Same oracle as `accept`."""
+
+    name = 'many_params'
+    exhaustive = True
+    budget = {'quick': 1, 'thorough': 1}
+
+    def cases(self, tier):
+        counts = (1, 16, 255, 256, 257, 300, 511, 512, 513, 700, 1023, 1024, 1025, 2100)
+        for n in (counts if tier != 'quick' else (1, 255, 256, 257, 512, 513, 1024, 1025)):
+            for shape in ('specific_low_q', 'specific_zero_q', 'three_levels', 'one_param_differs'):
+                yield {'n': n, 'shape': shape}
+        for n in (300, 3000):
+            yield {'n': n, 'shape': 'many_ranges'}
+
+    @staticmethod
+    def build(case):
+        n, shape = case['n'], case['shape']
+        params = [['p%d' % i, 'v%d' % (i % 7), False, False] for i in range(n)]
+        ws = ['', '', '', '']
+
+        def member(t, s_, p, q=None):
+            return {'t': t, 's': s_, 'p': p, 'q': q, 'ws': ws}
+        full = member('text', 'plain', params)
+        if shape == 'specific_low_q':
+            ranges = [member('text', 'plain', params, ('0', '1')), member('text', 'plain', [], ('0', '9'))]
+        elif shape == 'specific_zero_q':
+            ranges = [member('text', '*', [], ('0', '9')), member('text', 'plain', params, ('0', None)), member('*', '*', [], ('1', None))]
+        elif shape == 'three_levels':
+            ranges = [member('*', '*', [], ('1', None)), member('text', 'plain', params, ('0', '2')), member('text', '*', [], ('0', '5')),
+                      member('text', 'plain', params[:max(n - 1, 0)], ('0', '7'))]
+        elif shape == 'one_param_differs':
+            other = [list(p_) for p_ in params]
+            other[-1][1] = 'different'
+            ranges = [member('text', 'plain', other, ('0', '9')), member('text', 'plain', params[:n // 2], ('0', '3')), member('text', '*', [], ('0', '6'))]
+        else:
+            ranges = [member('application', 'x%d' % i, [], ('0', '%03d' % (i % 1000 or 1))) for i in range(n)] + [member('text', 'plain', [], ('0', '001'))]
+        cands = [full, member('text', 'plain', []), member('text', 'html', []), member('application', 'json', [])]
+        if shape == 'many_ranges':
+            cands = [member('text', 'plain', []), member('application', 'x%d' % (n - 1), []), member('application', 'nope', [])]
+        return {'ranges': ranges, 'cands': cands, 'slice': 'many_params'}
+
+    def run(self, case):
+        try:
+            check_accept(self.build(case))
+        except Violation as v:
+            d = v.detail
+            raise Violation(v.kind, '%s ... %s\n  for the Accept header / candidates built from %r' % (d[:300], d[-500:], case))
+        return Info(True, ['shape:' + case['shape'], 'n:%s' % ('<256' if case['n'] < 256 else '<512' if case['n'] < 512 else '>=512')])
+
+
+
+SUITES = [Accept(), ManyParams(), AcceptInvalid(), AcceptQuotedSpecial(), HandlerHistory(), HandlerEndToEnd(), WildcardKey(), HandlerCopyEmpty()]
 
 
 # ------------------------------------------------------------------ known findings
